@@ -219,12 +219,14 @@ def _tols(stats, p, c, floor=None):
     """(kappa_root, tolerance for updates, tolerance for stored roots).  TOL(1e-5 x kS^(1/p)) as designed, widened to the
     rounding level of the root routine's own arithmetic (float32 unless x64): an eigenvalue lambda_i of S + ridge I is only
     known to u * lambda_max, i.e. its root to u * kS / p relative; a gradient that is part of the statistics excites
-    direction i by at most sqrt(lambda_i), which leaves u * kS^(3/4)."""
+    direction i by at most sqrt(lambda_i), which leaves u * kS^(3/4).  The constants (128, 256) cover the dimension-dependent
+    factors of LAPACK's float32 eigh / the Newton recursion (observed tail: 2e-5 at kS = 40 between a 7x7 and its 21x21 padding);
+    under x64 these terms are < 1e-9 and TOL(1e-5 kS^(1/p)) decides."""
     if floor is None:
         floor = 1e-25 if c.get("root") == "newton" else 1e-6
     kr, ks = _kappa(stats, p, c.get("meps", 1e-6), floor, both=True)
     u = 2.0 ** -53 if c.get("x64") else 2.0 ** -24
-    return kr, max(TOL * kr, 8 * u * ks ** 0.75), max(TOL * kr, 16 * u * ks)
+    return kr, max(TOL * kr, 128 * u * ks ** 0.75), max(TOL * kr, 256 * u * ks)
 
 
 def _decisions(ls, thr):
@@ -730,7 +732,7 @@ def gen_tasks(tier, seed, thr, cut):
     for i in range(n_comp):
         nl = rng.choice([1, 1, 2])
         leaves = {}
-        block = rng.choice([4, 6, 8, 32, 32])
+        block = rng.choice([4, 8, 12, 16, 32, 32])
         for j in range(nl):
             rank = rng.choice([1, 2, 2, 3])
             leaves["k%d" % j] = [rng.randint(2, 9) for _ in range(rank)]
@@ -1041,8 +1043,8 @@ def run(ctx):
         "on a leaf that has statistics; root-padding with N > s; tf_mask spectra on which the shared-max model and the per-block model "
         "differ; rational newton_pad instances with N > s.")
     ctx.assumptions += [
-        "TOL: update / state entries are compared relative to the leaf's (block's) own norm; tolerance max(1e-5 kS^(1/p), 8 u kS^(3/4)) "
-        "for updates and max(1e-5 kS^(1/p), 16 u kS) for stored roots, kS = (lmax + ridge) / (lmin + ridge) of the leaf's statistics, "
+        "TOL: update / state entries are compared relative to the leaf's (block's) own norm; tolerance max(1e-5 kS^(1/p), 128 u kS^(3/4)) "
+        "for updates and max(1e-5 kS^(1/p), 256 u kS) for stored roots, kS = (lmax + ridge) / (lmin + ridge) of the leaf's statistics, "
         "u = 2^-24 (2^-53 under x64, where the root routine runs in float64); statistics 1e-5",
         "discontinuities: (leaf, step) pairs are compared only while total_retries, the Newton iteration counts and the acceptance decisions "
         "(error < inverse_failure_threshold) of both runs agree; otherwise counted as branch-flip / gate-flip, the stored roots re-examined "
